@@ -7,7 +7,7 @@ import os
 
 import lib
 
-CODES = {1: 'result', 2: 'log', 3: 'trace', 4: 'counts'}
+CODES = {1: 'result', 2: 'log', 3: 'trace', 4: 'counts', 5: 'hash'}
 
 EXPECTED_MRO = {
     # class: (compute_hash, evaluate, _compute_hash, _make_hash, _evaluate, _hash_graph) owners assumed by Model/Edges.v
@@ -40,7 +40,7 @@ def literal(case):
         ins = lib.clist([f'({i}, {lib.cval(call["ins"][str(i)])})' for i in case['signature']])
         calls.append('{| xc_ins := ' + ins + '; xc_bad := ' + lib.clist([lib.cstr(b) for b in call['bad']])
                      + '; xc_res := ' + lib.cxres(ob['res']) + '; xc_log := ' + lib.clist([lib.ccall(c) for c in ob['log']])
-                     + '; xc_trace := ' + lib.clist([lib.ctev(e) for e in ob['trace']]) + ' |}')
+                     + '; xc_trace := ' + lib.clist([lib.ctev(e) for e in ob['trace']]) + '; xc_hash := ' + lib.chash(ob.get('hash')) + ' |}')
     caches = lib.clist([f'({i}, KRam ({"None" if s is None else "Some " + str(s)}))' for i, s in enumerate(case['caches'])])
     counts = lib.clist([f'({n}, {c})' for n, c in case['counts']])
     return ('{| xg := ' + lib.cgraph(case['nodes']) + f'; xout := {case["out"]}; xcaches := {caches}; xcounts := {counts}; xcalls := '
@@ -62,13 +62,13 @@ def nontrivial(case):
     return len(inner) >= 3 and (max(shared.values()) if shared else 0) >= 2
 
 
-def run(ctx, n_quick=1200, n_thorough=20000, max_inner=14):
+def run(ctx, n_quick=1200, n_thorough=20000, max_inner=14, mutants=0):
     tier, seed, work = ctx['tier'], ctx['seed'], ctx['work']
     n = n_quick if tier == 'quick' else n_thorough
     out = os.path.join(work, 'engine.json')
     corpus = os.path.join(lib.VERIF, 'corpus', 'engine.json')
     rc, log = lib.run_impl('engine.py', ['--seed', str(seed), '--n', str(n), '--max-inner', str(max_inner), '--out', out,
-                                         '--corpus', corpus], 1500)
+                                         '--corpus', corpus, '--mutants', str(mutants)], 1500)
     if rc != 0:
         return {'cases': [], 'mismatch': [], 'errors': ['implementation harness failed: ' + log[-800:]], 'mro_bad': []}
     data = json.load(open(out))
@@ -84,7 +84,7 @@ def run(ctx, n_quick=1200, n_thorough=20000, max_inner=14):
     if total != len(cases) and not errors:
         errors.append(f'Coq checked {total} of {len(cases)} cases')
     mismatch = [{'index': i, 'kind': CODES.get(code % 10, str(code)), 'call': code // 10, 'case': cases[i]} for i, code in bad]
-    return {'cases': cases, 'mismatch': mismatch, 'errors': errors, 'mro_bad': mro_bad}
+    return {'cases': cases, 'mismatch': mismatch, 'errors': errors, 'mro_bad': mro_bad, 'mutants': data.get('mutants', [])}
 
 
 def distribution(cases):
